@@ -79,13 +79,43 @@ harness_op(int argc, char **argv)
         if (r.node) show_tree(f, r.node); else fprintf(f, "-");
         if (r.status == SXS_SUCCESS) fprintf(f, " pos=%zu", r.position);
         fclose(f);
+        /* the other entry points read the same text: length-delimited from position 0, and - when the text holds no
+         * NUL - as a terminated string; they must answer like sx_parse(s, n, 0) */
+        const char *entry = "same";
+        {
+            char *o2 = NULL; size_t l2 = 0;
+            struct sx_parse_result r2 = sx_parse_stringn((const char *)s, n);
+            FILE *f2 = open_memstream(&o2, &l2);
+            fprintf(f2, "%s tree=", status_name(r2.status));
+            if (r2.node) show_tree(f2, r2.node); else fprintf(f2, "-");
+            if (r2.status == SXS_SUCCESS) fprintf(f2, " pos=%zu", r2.position);
+            fclose(f2);
+            if (strcmp(o2, out) != 0) entry = "stringn-differs";
+            free(o2);
+            sx_destroy(&r2.node);
+            if (memchr(s, 0, n) == NULL) {
+                char *z = malloc(n + 1);
+                memcpy(z, s, n); z[n] = 0;
+                struct sx_parse_result r3 = sx_parse_string(z);
+                char *o3 = NULL; size_t l3 = 0;
+                FILE *f3 = open_memstream(&o3, &l3);
+                fprintf(f3, "%s tree=", status_name(r3.status));
+                if (r3.node) show_tree(f3, r3.node); else fprintf(f3, "-");
+                if (r3.status == SXS_SUCCESS) fprintf(f3, " pos=%zu", r3.position);
+                fclose(f3);
+                if (strcmp(o3, out) != 0) entry = "string-differs";
+                free(o3);
+                sx_destroy(&r3.node);
+                free(z);
+            }
+        }
         hx_frees = 0; hx_on = true;
         sx_destroy(&r.node);
         hx_on = false;
         /* allocations made by the reader / released before it returned / released by destroying what it returned */
         /* model view: the three counts (how the reader allocates is the code's business); property view: what is
          * still allocated once the returned tree has been destroyed - nothing may be */
-        printf("%s heap=%zu/%zu/%zu ## %s leaked=%ld", out, made, released, hx_frees, out, (long)made - (long)released - (long)hx_frees);
+        printf("%s heap=%zu/%zu/%zu ## %s leaked=%ld entry=%s", out, made, released, hx_frees, out, (long)made - (long)released - (long)hx_frees, entry);
         free(out);
         free(s);
     } else if (strcmp(argv[0], "sx.deep") == 0 && argc == 3) {
